@@ -96,6 +96,23 @@ var safetyKinds = map[string]bool{"nil": true, "bounds": true, "typeassert": tru
 	"close": true, "panic": true, "blocking": true, "decreases": true, "overflow": true}
 
 func owns(prop string, c *Contract, ob *Obligation) bool {
+	if len(c.Only) > 0 && !ob.Cover {
+		// `only <label>...`: the contract claims nothing but the named clauses of this function
+		name := returnOrdinalRe.ReplaceAllString(ob.Name, "")
+		i := strings.LastIndex(name, "#")
+		if i < 0 {
+			return false
+		}
+		found := false
+		for _, l := range c.Only {
+			if name[i+1:] == l {
+				found = true
+			}
+		}
+		if !found {
+			return false
+		}
+	}
 	if ob.Prop != "" {
 		return ob.Prop == prop
 	}
